@@ -660,8 +660,8 @@ func helperResultLeaves(fl *Flow, v ssa.Value, facts FactSet) []Leaf {
 	if cal == nil || cal == fl.Fn || cal.Blocks == nil || cal.Synthetic != "" || funcPkgPath(cal) != funcPkgPath(fl.Fn) || !inModule(funcPkgPath(cal)) || leafDepth > 2 {
 		return nil
 	}
-	if getterLike(cal) || leafStops[cal] {
-		return nil
+	if leafStops[cal] || getterLike(cal) && len(returnsOf(cal)) <= 1 {
+		return nil // plain accessors are terms of their own; a pure helper that selects among several results is looked into
 	}
 	nres := cal.Signature.Results().Len()
 	if idx >= nres {
